@@ -139,6 +139,7 @@ fn phase_name(p: u8) -> &'static str {
         0 => "sweep",
         1 => "hammer",
         2 => "recompile",
+        4 => "buffer-reuse",
         _ => "fresh",
     }
 }
@@ -192,6 +193,55 @@ fn reference(case: &Case) -> Result<Vec<Vec<u8>>, Sexp> {
         .collect())
 }
 
+fn buffer_reuse(case: &Case, filters: &[Filter], seq: &[Vec<u8>]) -> Option<Diff> {
+    use wirefilter::{GetType, LhsValue, Type};
+    let ctxs: Vec<ExecutionContext<'static>> = case.ctxs.iter().filter_map(|c| dec_ctx(&case.info, c)).collect();
+    if ctxs.len() != case.ctxs.len() {
+        return None;
+    }
+    for field in case.info.scheme.fields() {
+        if field.get_type() != Type::Bytes {
+            continue;
+        }
+        // the contexts that have a value for the field, grouped by the value's length
+        let mut by_len: std::collections::BTreeMap<usize, Vec<(usize, Vec<u8>)>> = Default::default();
+        for (j, c) in ctxs.iter().enumerate() {
+            if let Some(LhsValue::Bytes(b)) = c.get_field_value(field) {
+                by_len.entry(b.len()).or_default().push((j, b.to_vec()));
+            }
+        }
+        for (len, group) in by_len {
+            if group.len() < 2 || len == 0 {
+                continue;
+            }
+            let mut buf: Vec<u8> = vec![0; len];
+            for round in 0..2 {
+                for (j, bytes) in &group {
+                    buf.copy_from_slice(bytes);
+                    {
+                        let mut c2: ExecutionContext<'_> = ctxs[*j].clone_with(());
+                        if c2.set_field_value(field, &buf[..]).is_err() {
+                            return None;
+                        }
+                        for (i, f) in filters.iter().enumerate() {
+                            let got = match catch_unwind(AssertUnwindSafe(|| f.execute(&c2))) {
+                                Ok(Ok(true)) => TRUE,
+                                Ok(Ok(false)) => FALSE,
+                                Ok(Err(_)) => MISMATCH,
+                                Err(_) => PANIC,
+                            };
+                            if got != seq[i][*j] {
+                                return Some(Diff { phase: 4, thread: 0, filter: i, ctx: *j, rep: round, got });
+                            }
+                        }
+                    }
+                }
+            }
+        }
+    }
+    None
+}
+
 fn run_threads(case: Case) -> Sexp {
     let seq = match reference(&case) {
         Ok(s) => s,
@@ -214,6 +264,13 @@ fn run_threads(case: Case) -> Sexp {
     } else {
         Vec::new()
     });
+    // `buffer-reuse` (sequential): the long-lived compiled filters are executed on contexts whose byte-string
+    // fields borrow ONE buffer that is overwritten in place between executions, so consecutive inputs have the
+    // same address and length but different bytes - repeated executions must still agree with the reference
+    // (a memo keyed by the identity of the input instead of its content would not).
+    if let Some(d) = buffer_reuse(&case, &filters, &seq) {
+        return answer(&seq, Some(d));
+    }
     let t_n = case.t;
     let barrier = Barrier::new(t_n);
     let case = &case;
